@@ -89,6 +89,10 @@ pub enum OpKind {
         alo: u32,
         /// "each" | "none" | "ms:<n>"
         fsync: String,
+        /// true: the data directory is handed over through WALRUS_DATA_DIR and a *_for_key constructor
+        /// (the documented alternative to the builder); false: WalrusBuilder::data_dir
+        #[serde(default)]
+        via_env: bool,
     },
     Close {
         inst: u32,
